@@ -284,6 +284,9 @@ def execT {α : Type} (tname : String) (isMask : Bool) (T : Sem α) (sh : Shape)
           | "vv" => match pv ta, pv tb with | some a, some b => res ((Simd.binaryVV sem op a b).map sv) | _, _ => "bad-op"
           | "vs" => match pv ta, T.parse tb with | some a, some s => res ((Simd.binaryVS sem op a s).map sv) | _, _ => "bad-op"
           | "sv" => match T.parse ta, pv tb with | some s, some b => res ((Simd.binarySV sem op s b).map sv) | _, _ => "bad-op"
+          | "va" => match pv ta, tb.toNat? with   -- a OP lane(k, a): out of place, the old value of lane k
+            | some a, some k => if k < S then res (((Simd.lane k a).bind fun s => Simd.binaryVS sem op a s).map sv) else "bad-op"
+            | _, _ => "bad-op"
           | _ => "bad-op"
       | none =>
       match shiftOpOf opn with
@@ -294,6 +297,9 @@ def execT {α : Type} (tname : String) (isMask : Bool) (T : Sem α) (sh : Shape)
           match form with
           | "vv" => match pv ta, pv tb with | some a, some b => res ((Simd.shiftVV sem op a b).map sv) | _, _ => "bad-op"
           | "vs" => match pv ta, T.parse tb with | some a, some s => res ((Simd.shiftVS sem op a s).map sv) | _, _ => "bad-op"
+          | "va" => match pv ta, tb.toNat? with
+            | some a, some k => if k < S then res (((Simd.lane k a).bind fun s => Simd.shiftVS sem op a s).map sv) else "bad-op"
+            | _, _ => "bad-op"
           | _ => noSuch
       | none =>
       match cmpOpOf opn with
@@ -302,6 +308,9 @@ def execT {α : Type} (tname : String) (isMask : Bool) (T : Sem α) (sh : Shape)
           | "vv" => match pv ta, pv tb with | some a, some b => res ((Simd.compareVV cmpSem op a b).map sm) | _, _ => "bad-op"
           | "vs" => match pv ta, T.parse tb with | some a, some s => res ((Simd.compareVS cmpSem op a s).map sm) | _, _ => "bad-op"
           | "sv" => match T.parse ta, pv tb with | some s, some b => res ((Simd.compareSV cmpSem op s b).map sm) | _, _ => "bad-op"
+          | "va" => match pv ta, tb.toNat? with
+            | some a, some k => if k < S then res (((Simd.lane k a).bind fun s => Simd.compareVS cmpSem op a s).map sm) else "bad-op"
+            | _, _ => "bad-op"
           | _ => "bad-op"
       | none =>
       match boolOpOf opn with
@@ -310,6 +319,9 @@ def execT {α : Type} (tname : String) (isMask : Bool) (T : Sem α) (sh : Shape)
           | "vv" => match pv ta, pv tb with | some a, some b => res ((Simd.logicVV logicSem op a b).map sm) | _, _ => "bad-op"
           | "vs" => match pv ta, T.parse tb with | some a, some s => res ((Simd.logicVS logicSem op a s).map sm) | _, _ => "bad-op"
           | "sv" => match T.parse ta, pv tb with | some s, some b => res ((Simd.logicSV logicSem op s b).map sm) | _, _ => "bad-op"
+          | "va" => match pv ta, tb.toNat? with
+            | some a, some k => if k < S then res (((Simd.lane k a).bind fun s => Simd.logicVS logicSem op a s).map sm) else "bad-op"
+            | _, _ => "bad-op"
           | _ => "bad-op"
       | none =>
       match opn, form, pv ta, pv tb with
@@ -336,7 +348,7 @@ def execT {α : Type} (tname : String) (isMask : Bool) (T : Sem α) (sh : Shape)
           | "vv" => match pv ta, pv tb with | some a, some b => res ((Simd.assignVV sem op a b).map sv) | _, _ => "bad-op"
           | "vs" => match pv ta, T.parse tb with | some a, some s => res ((Simd.assignVS sem op a s).map sv) | _, _ => "bad-op"
           | "va" => match pv ta, tb.toNat? with   -- a OP= lane(k, a): the scalar is passed by value
-            | some a, some k => if k < S then res (((Simd.lane k a).bind fun s => Simd.assignVS sem op a s).map sv) else "bad-op"
+            | some a, some k => if k < S then res ((Simd.assignVA sem op a k).map sv) else "bad-op"
             | _, _ => "bad-op"
           | _ => noSuch
     | "un", [opn, ta] =>
@@ -384,6 +396,7 @@ def execT {α : Type} (tname : String) (isMask : Bool) (T : Sem α) (sh : Shape)
     let maskOf : Vec (Vec α S₂) S₁ → Option (Vec (Vec Bool S₂) S₁) := fun v =>
       if isMask then some (v.map fun e => e.map T.truth) else Simd.maskNested cmpSem T.zero v
     match kind, rest with
+    | "bin", ["va", _, _, _] => "bad-op"
     | "bin", [form, opn, ta, tb] =>
       match binOpOf opn with
       | some op => match T.bin op with
@@ -459,9 +472,7 @@ def execT {α : Type} (tname : String) (isMask : Bool) (T : Sem α) (sh : Shape)
             | some a, some s => res ((Simd.ipVS loop_ASSIGNMENT_OP_vs (Simd.assignVS sem op) a s).map sv) | _, _ => "bad-op"
           | "va" => match pv ta, tb.toNat? with
             | some a, some k =>
-              if k < S₁ * S₂ then
-                res (((Simd.laneNested k a).bind fun s => Simd.ipVS loop_ASSIGNMENT_OP_vs (Simd.assignVS sem op) a s).map sv)
-              else "bad-op"
+              if k < S₁ * S₂ then res ((Simd.assignVANested sem op a k).map sv) else "bad-op"
             | _, _ => "bad-op"
           | _ => noSuch
     | "un", [opn, ta] =>
@@ -803,6 +814,17 @@ def handle (line : String) : String :=
         | [tb] => withShape shape fun C => execMatG C what n (piv == "1") ta (some tb)
         | _ => "bad-op"
       else "bad-op"
+    | none => "bad-op"
+  | "dmat" :: what :: shape :: n :: piv :: ta :: rest =>
+    -- DynamicMatrix: the same algorithms, run-time size 1..8 (no 1x1 specialisation of rightmultiply: not generated)
+    match n.toNat? with
+    | some n =>
+      if shape ∈ ["2", "4"] ∧ 1 ≤ n ∧ n ≤ 8 ∧ (piv = "0" ∨ piv = "1") ∧ what ∈ ["det", "solve", "inv", "mv", "fnorm2", "infnorm"] then
+        match rest with
+        | [] => withShape shape fun C => execMatG C what n (piv == "1") ta none
+        | [tb] => withShape shape fun C => execMatG C what n (piv == "1") ta (some tb)
+        | _ => "bad-op"
+      else if shape ∈ ["2", "4"] ∧ 1 ≤ n ∧ n ≤ 8 then noSuch else "bad-op"
     | none => "bad-op"
   | "rect" :: what :: shape :: r :: c :: rest =>
     match r.toNat?, c.toNat? with
